@@ -193,8 +193,12 @@ static void Tree_New(var self, var args) {
 
 static void Tree_Clear_Entry(struct Tree* m, var node) {
   if (node isnt NULL) {
+    /* a subtree is cut off as soon as it is gone: an element's destructor
+    ** may start a collection, which walks this tree */
     Tree_Clear_Entry(m, *Tree_Left(m, node));
+    *Tree_Left(m, node) = NULL;
     Tree_Clear_Entry(m, *Tree_Right(m, node));
+    *Tree_Right(m, node) = NULL;
     destruct(Tree_Key(m, node));
     destruct(Tree_Val(m, node));
     free(node);
